@@ -955,6 +955,7 @@ def run(ctx):
     for (c, L1, L2), (res, resw) in zip(dcases, dres):
         oracle_case(ctx, c, L1, L2, res, resw)
     relations(ctx, dcases, dres, IN, quick)
+    decomposition_checks(ctx, dcases)
     twin_checks(ctx, dcases, dres, IN, quick)
     alias_checks(ctx, cases, quick, ndisjoint)
     betweenness_checks(ctx, dcases, quick)
@@ -1107,6 +1108,89 @@ def accumulation_correspondence(ctx):
                    "correspondence", not wrong, str(wrong))
 
 
+def enc_int_mat(M):
+    return ";".join(",".join(str(int(v)) for v in row) for row in np.asarray(M).tolist()) or "-"
+
+
+def isrn_snapshot(isrn, tag):
+    """round 5: request for the Lean model `Pyunicorn.CrossISRN` (assembly of the adjacency matrix
+    from the three recurrence matrices, the four wrappers, the cross recurrence rate) and the
+    implementation's results on the same object"""
+    Nx, N = int(isrn.N_x), int(isrn.N)
+    Lx, Ly = list(range(Nx)), list(range(Nx, N))
+    req = " ".join(["isrn", str(Nx), str(N), enc_int_mat(isrn.rp_x.recurrence_matrix()),
+                    enc_int_mat(isrn.crp_xy.recurrence_matrix()),
+                    enc_int_mat(isrn.rp_y.recurrence_matrix())])
+
+    def q(f):
+        with contextlib.redirect_stdout(io.StringIO()):
+            return call(f)
+    res = {"adjacency": q(lambda: isrn.adjacency),
+           "cross_global_clustering_xy": q(isrn.cross_global_clustering_xy),
+           "cross_global_clustering_yx": q(isrn.cross_global_clustering_yx),
+           "cross_transitivity_xy": q(isrn.cross_transitivity_xy),
+           "cross_transitivity_yx": q(isrn.cross_transitivity_yx),
+           "cross_recurrence_rate": q(isrn.cross_recurrence_rate),
+           "cross_link_density_xy": q(lambda: isrn.cross_link_density(Lx, Ly)),
+           "n_links": q(lambda: isrn.n_links)}
+    return req, res, f"{tag} N_x={Nx} N_y={N - Nx}"
+
+
+def isrn_correspondence(ctx, todo):
+    if not todo:
+        return
+    model = common.driver(ctx.pid, [t[0] for t in todo])
+    bad, ncmp = [], 0
+    for (req, res, meta), ans in zip(todo, model):
+        got = dict(kv.split("=", 1) for kv in ans.split("|")) if "=" in ans else {}
+        for nm, iv in res.items():
+            ncmp += 1
+            if nm not in got or not same(iv, parse_model(got[nm])):
+                bad.append((nm, meta, req[:200], got.get(nm, ans)[:160], str(iv)[:160]))
+    ctx.count("isrn:results-compared-with-model", ncmp)
+    ctx.extra["isrn_results_compared"] = ncmp
+    ctx.obligation(f"correspondence: Lean model CrossISRN (adjacency assembled from R_x, CR_xy, R_y "
+                   f"with flat[::N+1] = 0, the four xy / yx wrappers, cross recurrence rate, "
+                   f"n_links) == InterSystemRecurrenceNetwork ({ncmp} results on {len(todo)} "
+                   f"states of {len(set(t[2] for t in todo))} objects, fixed-threshold and "
+                   f"fixed-recurrence-rate constructors, re-thresholded objects)",
+                   "correspondence", not bad,
+                   "\n".join(f"{nm} {meta} {rq} :: model={mv} impl={iv}"
+                             for nm, meta, rq, mv, iv in bad[:6]))
+
+
+def isrn_relations(ctx, isrn, info):
+    """implementation only (theorems isrn_cross_recurrence_rate, isrn_n_links, isrn_blocks)"""
+    Nx, N = int(isrn.N_x), int(isrn.N)
+    Lx, Ly = list(range(Nx)), list(range(Nx, N))
+    ctx.count("relation:isrn-blocks")
+    try:
+        with contextlib.redirect_stdout(io.StringIO()):
+            CR = np.asarray(isrn.crp_xy.recurrence_matrix()).astype(int)
+            Rx = np.asarray(isrn.rp_x.recurrence_matrix()).astype(int)
+            Ry = np.asarray(isrn.rp_y.recurrence_matrix()).astype(int)
+            A = np.asarray(isrn.adjacency).astype(int)
+            ok = np.array_equal(np.asarray(isrn.cross_adjacency(Lx, Ly)).astype(int), CR) and \
+                np.array_equal(np.asarray(isrn.cross_adjacency(Ly, Lx)).astype(int), CR.T) and \
+                np.array_equal(np.asarray(isrn.internal_adjacency(Lx)).astype(int),
+                               Rx - np.diag(np.diag(Rx))) and \
+                np.array_equal(np.asarray(isrn.internal_adjacency(Ly)).astype(int),
+                               Ry - np.diag(np.diag(Ry))) and \
+                abs(isrn.cross_recurrence_rate() - isrn.cross_link_density(Lx, Ly)) < 1e-12 and \
+                int(isrn.n_links) == int(isrn.number_internal_links(Lx)) + \
+                int(isrn.number_internal_links(Ly)) + int(CR.sum()) and \
+                not np.any(np.diag(A)) and np.array_equal(A, A.T)
+        what = ""
+    except Exception as e:  # noqa
+        ok, what = False, "raise:" + type(e).__name__
+    if not ok:
+        ctx.fail({"class": "InterSystemRecurrenceNetwork", "method": "adjacency / blocks",
+                  "relation": "blocks-are-recurrence-matrices"},
+                 "the x / y / cross blocks of an InterSystemRecurrenceNetwork are not its recurrence "
+                 "/ cross recurrence matrices (or cross recurrence rate != cross link density, "
+                 "n_links != sum over the blocks) " + what, info)
+
+
 def subclass_checks(ctx, quick):
     """objects of the subclasses of InteractingNetworks (VisibilityGraph,
     InterSystemRecurrenceNetwork) run through the same definitions on the sub-blocks of *their*
@@ -1154,17 +1238,30 @@ def subclass_checks(ctx, quick):
         with contextlib.redirect_stdout(io.StringIO()):
             vg = VisibilityGraph(ts, horizontal=rng.random() < 0.4, silence_level=3)
         run_pairs(as_case(vg, "VisibilityGraph"), 2)
-    for _ in range(3 if quick else 12):
-        nx, ny = rng.randrange(3, 8), rng.randrange(3, 8)
+    todo = []
+    for _ in range(5 if quick else 24):
+        nx, ny = rng.randrange(3, 9), rng.randrange(3, 9)
         x = np.array([rng.randrange(0, 12) / 4.0 for _ in range(nx)])
         y = np.array([rng.randrange(0, 12) / 4.0 for _ in range(ny)])
-        th = rng.choice([0.3, 0.6, 1.1])
+        # dyadic data and thresholds strictly between two attainable distances (multiples of 1/4)
+        ths = tuple(rng.choice([0.125, 0.375, 0.625, 1.125, 1.625]) for _ in range(3))
+        th = ths
+        by_rate = rng.random() < 0.3
         try:
             with contextlib.redirect_stdout(io.StringIO()):
-                isrn = InterSystemRecurrenceNetwork(x, y, threshold=(th, th, th), silence_level=3)
+                if by_rate:
+                    rr = tuple(rng.choice([0.2, 0.35, 0.5, 0.7]) for _ in range(3))
+                    isrn = InterSystemRecurrenceNetwork(x, y, recurrence_rate=rr, silence_level=3)
+                else:
+                    isrn = InterSystemRecurrenceNetwork(x, y, threshold=ths, silence_level=3)
         except Exception as e:  # noqa
             ctx.count("subclass:isrn-constructor-raises:" + type(e).__name__)
             continue
+        ctx.count("subclass:isrn:" + ("fixed-recurrence-rate" if by_rate else "fixed-threshold")
+                  + (":N_x=N_y" if nx == ny else ":N_x!=N_y"))
+        info = {"x": x.tolist(), "y": y.tolist(), "threshold": list(ths), "by_rate": by_rate}
+        todo.append(isrn_snapshot(isrn, f"object{len(todo)}"))
+        isrn_relations(ctx, isrn, info)
         c = as_case(isrn, "InterSystemRecurrenceNetwork")
         need_n = int(isrn.N_x) + int(isrn.N_y)
         if c.n != need_n:
@@ -1187,6 +1284,19 @@ def subclass_checks(ctx, quick):
                          {"x": x.tolist(), "y": y.tolist(), "threshold": th, "adjacency": c.A,
                           "method": nm, "expected": str(exp), "observed": str(got)})
 
+        # a second state of the same object (a multi-step history): new thresholds through the
+        # public setter, which replaces the adjacency held by the network
+        ths2 = tuple(rng.choice([0.125, 0.375, 0.625, 1.125, 1.625]) for _ in range(3))
+        try:
+            with contextlib.redirect_stdout(io.StringIO()):
+                isrn.set_fixed_threshold(ths2)
+            ctx.count("subclass:isrn:re-thresholded")
+            info2 = dict(info, threshold=list(ths2), after="set_fixed_threshold")
+            todo.append(isrn_snapshot(isrn, todo[-1][2].split()[0] + "-rethresholded"))
+            isrn_relations(ctx, isrn, info2)
+        except Exception as e:  # noqa
+            ctx.count("subclass:isrn-set_fixed_threshold-raises:" + type(e).__name__)
+    isrn_correspondence(ctx, todo)
 
 def hub_checks(ctx, quick):
     """large cross degrees: the library's degree dtype is int16, so a normalisation k(k-1)/2 or a
@@ -1413,6 +1523,76 @@ def transpose(v):
     if isinstance(v, str):
         return v
     return [list(r) for r in zip(*v)] if v and v[0] else v
+
+
+def decomposition_checks(ctx, cases):
+    """round 5 (theorems `degree_decomposition`, `nsi_degree_decomposition`,
+    `n_links_decomposition[_directed]`), on the implementation only: for every bipartition
+    (L1, L2) of the node set the single-network degree / n.s.i. degree / link count is the sum of
+    the internal and the cross quantity"""
+    for c, L1, L2 in cases:
+        if sorted(list(L1) + list(L2)) != list(range(c.n)):
+            continue
+        net = c.net
+        ctx.count("relation:bipartition-decomposition")
+
+        def vec(f):
+            v = call(f)
+            return v if isinstance(v, str) else [x for r in v for x in r]
+        deg = vec(net.degree)
+        i1, c12 = vec(lambda: net.internal_degree(L1)), vec(lambda: net.cross_degree(L1, L2))
+        bad = []
+        if isinstance(deg, str) or isinstance(i1, str) or isinstance(c12, str) or \
+                [deg[a] for a in L1] != [x + y for x, y in zip(i1, c12)]:
+            bad.append(("degree", f"Network.degree()[L1]={deg} internal={i1} cross={c12}"))
+        nd = vec(net.nsi_outdegree)   # = nsi_degree() on undirected networks (Net.nsiOutdeg)
+        n1, n12 = vec(lambda: net.nsi_internal_degree(L1)), vec(lambda: net.nsi_cross_degree(L1, L2))
+        if isinstance(nd, str) or isinstance(n1, str) or isinstance(n12, str) or any(
+                abs(nd[a] - (x + y)) > 1e-9 * max(2.0 ** -40, abs(nd[a]))
+                for a, x, y in zip(L1, n1, n12)):
+            bad.append(("nsi_outdegree", f"Network.nsi_outdegree()={nd} internal={n1} cross={n12}"))
+        nl = call(lambda: net.n_links)
+        a1, a2 = call(lambda: net.number_internal_links(L1)), \
+            call(lambda: net.number_internal_links(L2))
+        if c.directed:
+            x12 = vec(lambda: net.cross_outdegree(L1, L2))
+            x21 = vec(lambda: net.cross_outdegree(L2, L1))
+            cross = None if isinstance(x12, str) or isinstance(x21, str) else sum(x12) + sum(x21)
+        else:
+            x = call(lambda: net.number_cross_links(L1, L2))
+            cross = None if isinstance(x, str) else x[0][0]
+        if cross is None or isinstance(nl, str) or isinstance(a1, str) or isinstance(a2, str) or \
+                nl[0][0] != a1[0][0] + a2[0][0] + cross:
+            bad.append(("n_links", f"n_links={nl} internal={a1},{a2} cross={cross}"))
+        if any(any(r) for r in c.A):
+            # theorem apl_decomposition: Network.average_path_length(link_attribute) is the pooled
+            # mean of the four path-length blocks of the bipartition
+            try:
+                with warnings.catch_warnings():
+                    warnings.simplefilter("ignore")
+                    with np.errstate(all="ignore"):
+                        with contextlib.redirect_stdout(io.StringIO()):
+                            whole = float(net.average_path_length("la"))
+                            B = [np.array(net.internal_path_lengths(L1, "la"), dtype=float),
+                                 np.array(net.cross_path_lengths(L1, L2, "la"), dtype=float),
+                                 np.array(net.cross_path_lengths(L2, L1, "la"), dtype=float),
+                                 np.array(net.internal_path_lengths(L2, "la"), dtype=float)]
+                S = sum(float(b[np.isfinite(b)].sum()) for b in B)
+                U = sum(int(np.isinf(b).sum()) for b in B)
+                norm = c.n * (c.n - 1) - U
+                okp = (norm == 0 and not math.isfinite(whole)) or (
+                    norm != 0 and abs(whole - S / norm) <= 1e-9 * max(2.0 ** -40, abs(S / norm)))
+                what = f"average_path_length('la')={whole} blocks: sum={S} inf={U}"
+            except Exception as e:  # noqa
+                okp, what = False, "raise:" + type(e).__name__
+            ctx.count("relation:bipartition-apl-decomposition")
+            if not okp:
+                bad.append(("average_path_length", what))
+        for nm, what in bad:
+            ctx.fail(sig(nm, "bipartition-decomposition", c),
+                     f"Network.{nm} is not the sum of the internal and the cross quantity of the "
+                     f"bipartition ({L1}, {L2}): {what}",
+                     replay_of(c, L1, L2, method=nm, observed=what))
 
 
 def relations(ctx, cases, impl_results, IN, quick):
@@ -1901,29 +2081,194 @@ def betweenness_checks(ctx, cases, quick):
 # CoupledClimateNetwork wrappers: layers = (0..N1-1), (N1..N-1)
 # --------------------------------------------------------------------------
 
+CCN_PAIR = {"number_internal_links", "internal_link_density", "internal_global_clustering",
+            "cross_global_clustering", "cross_transitivity", "internal_average_path_length",
+            "internal_average_path_length(la)", "cross_degree", "internal_degree",
+            "cross_local_clustering", "cross_closeness", "cross_closeness(la)",
+            "internal_closeness", "internal_closeness(la)", "cross_betweenness",
+            "internal_betweenness_1", "internal_betweenness_2"}
+CCN_LA = {"path_lengths_1(la)", "path_lengths_2(la)", "cross_path_lengths(la)",
+          "cross_average_path_length(la)", "internal_average_path_length(la)",
+          "cross_closeness(la)", "internal_closeness(la)"}
+CCN_F32 = {"cross_average_link_distance", "cross_average_link_distance(reverse)"}
+
+
+def ccn_impl_results(ccn, has_links):
+    """every public layer wrapper of a CoupledClimateNetwork, canonicalised (round 5: the
+    implementation side of the correspondence with the Lean model `Pyunicorn.CrossCCN`)"""
+    def q(thunk):
+        try:
+            with warnings.catch_warnings():
+                warnings.simplefilter("ignore")
+                with np.errstate(all="ignore"):
+                    with contextlib.redirect_stdout(io.StringIO()):
+                        v = thunk()
+        except Exception as e:  # noqa
+            return "raise:" + type(e).__name__
+        if isinstance(v, tuple):
+            return tuple(canon_impl(x) for x in v)
+        return canon_impl(v)
+    r = {
+        "nodes_1": q(lambda: np.array(ccn.nodes_1, dtype=np.int64)),
+        "nodes_2": q(lambda: np.array(ccn.nodes_2, dtype=np.int64)),
+        "adjacency_1": q(ccn.adjacency_1), "adjacency_2": q(ccn.adjacency_2),
+        "cross_layer_adjacency": q(ccn.cross_layer_adjacency),
+        "similarity_measure_1": q(ccn.similarity_measure_1),
+        "similarity_measure_2": q(ccn.similarity_measure_2),
+        "cross_similarity_measure": q(ccn.cross_similarity_measure),
+        "path_lengths_1": q(ccn.path_lengths_1), "path_lengths_2": q(ccn.path_lengths_2),
+        "cross_path_lengths": q(ccn.cross_path_lengths),
+        "cross_link_distance": q(ccn.cross_link_distance),
+        "cross_average_link_distance": q(ccn.cross_average_link_distance),
+        "cross_average_link_distance(reverse)":
+            q(lambda: ccn.cross_average_link_distance(reverse=True)),
+        "number_cross_layer_links": q(ccn.number_cross_layer_links),
+        "number_internal_links": q(ccn.number_internal_links),
+        "cross_link_density": q(ccn.cross_link_density),
+        "internal_link_density": q(ccn.internal_link_density),
+        "internal_global_clustering": q(ccn.internal_global_clustering),
+        "cross_global_clustering": q(ccn.cross_global_clustering),
+        "cross_transitivity": q(ccn.cross_transitivity),
+        "cross_average_path_length": q(ccn.cross_average_path_length),
+        "internal_average_path_length": q(ccn.internal_average_path_length),
+        "cross_degree": q(ccn.cross_degree), "internal_degree": q(ccn.internal_degree),
+        "cross_local_clustering": q(ccn.cross_local_clustering),
+        "cross_closeness": q(ccn.cross_closeness),
+        "internal_closeness": q(ccn.internal_closeness),
+        "cross_betweenness": q(ccn.cross_betweenness),
+        "internal_betweenness_1": q(ccn.internal_betweenness_1),
+        "internal_betweenness_2": q(ccn.internal_betweenness_2)}
+    if has_links:
+        r.update({
+            "path_lengths_1(la)": q(lambda: ccn.path_lengths_1("la")),
+            "path_lengths_2(la)": q(lambda: ccn.path_lengths_2("la")),
+            "cross_path_lengths(la)": q(lambda: ccn.cross_path_lengths("la")),
+            "cross_average_path_length(la)": q(lambda: ccn.cross_average_path_length("la")),
+            "internal_average_path_length(la)":
+                q(lambda: ccn.internal_average_path_length("la")),
+            "cross_closeness(la)": q(lambda: ccn.cross_closeness("la")),
+            "internal_closeness(la)": q(lambda: ccn.internal_closeness("la"))})
+    return r
+
+
+def same_f32(impl, exact):
+    """entries computed by the library in float32 (sums of angular distances): relative 1e-5"""
+    if isinstance(impl, str) or isinstance(exact, str):
+        return impl == exact
+    if len(impl) != len(exact):
+        return False
+    for ri, re_ in zip(impl, exact):
+        if len(ri) != len(re_):
+            return False
+        for x, qv in zip(ri, re_):
+            if qv == "nan":
+                if not (isinstance(x, float) and math.isnan(x)):
+                    return False
+            elif not (isinstance(x, float) and
+                      abs(x - float(qv)) <= 1e-5 * max(2.0 ** -40, abs(float(qv)))):
+                return False
+    return True
+
+
+def ccn_same(nm, impl, model):
+    """canonical implementation result of wrapper `nm` against the model's answer string"""
+    cmp_ = same_f32 if nm in CCN_F32 else same
+    if nm in CCN_PAIR:
+        if model.startswith("raise:") or isinstance(impl, str):
+            return impl == model
+        parts = model.split("&")
+        return isinstance(impl, tuple) and len(impl) == 2 and len(parts) == 2 and all(
+            cmp_(i_, parse_model(m_)) for i_, m_ in zip(impl, parts))
+    if isinstance(impl, tuple):
+        return False
+    pm = parse_model(model)
+    if nm in CCN_F32 and model == "nan":
+        pm = [["nan"]]        # a one-node layer without cross link: the vector [nan]
+    if nm in ("nodes_1", "nodes_2") and pm == [] and impl == [[]]:
+        return True
+    return cmp_(impl, pm)
+
+
+def ccn_correspondence(ctx, todo):
+    """round 5: the Lean model `Pyunicorn.CrossCCN` of every layer wrapper of
+    CoupledClimateNetwork (request `ccn`) against the wrappers of the very objects the oracle's
+    wrapper histories ran on"""
+    if not todo:
+        return
+    model = common.driver(ctx.pid, [t[0] for t in todo])
+    bad, ncmp = [], 0
+    for (req, res, meta), ans in zip(todo, model):
+        got = dict(kv.split("=", 1) for kv in ans.split("|")) if "=" in ans else {}
+        for nm, iv in res.items():
+            if "directed=True" in meta and nm == "internal_global_clustering":
+                continue   # Network.local_clustering of a directed network: not C03's model
+            ncmp += 1
+            if nm not in got or not ccn_same(nm, iv, got[nm]):
+                bad.append((nm, meta, got.get(nm, ans)[:160], str(iv)[:160]))
+    ctx.count("ccn:wrapper-results-compared-with-model", ncmp)
+    ctx.extra["ccn_wrapper_results_compared"] = ncmp
+    ctx.obligation(f"correspondence: Lean model CrossCCN (nodes_1 / nodes_2, slices, every layer "
+                   f"wrapper incl. link_attribute and reverse arguments) == CoupledClimateNetwork "
+                   f"({ncmp} results on {len(todo)} coupled networks, directed ones included)",
+                   "correspondence", not bad,
+                   "\n".join(f"{nm} {meta} :: model={mv} impl={iv}" for nm, meta, mv, iv in bad[:6]))
+
+
 def ccn_checks(ctx, quick):
     from pyunicorn.climate import CoupledClimateNetwork
     from pyunicorn.core import GeoGrid
     rng = ctx.rng
-    for _ in range(6 if quick else 40):
-        N1 = rng.randrange(1, 5)
-        N2 = rng.randrange(1, 5)
+    todo = []
+    kinds = ["random"] * (7 if quick else 48) + ["no-cross-links", "empty", "complete",
+                                                 "one-cross-link", "layer-2-isolated"]
+    if not quick:
+        kinds += ["no-cross-links", "one-cross-link", "layer-2-isolated"] * 3
+    for kind in kinds:
+        N1 = rng.randrange(1, 7)
+        N2 = rng.randrange(1, 7)
         n = N1 + N2
         if n < 3:
             N2 += 1
             n += 1
+        directed = kind == "random" and rng.random() < 0.3
         t = np.arange(4.0)
         g1 = GeoGrid(t, np.array([10.0 * k for k in range(N1)]),
                      np.array([5.0 * k for k in range(N1)]), silence_level=3)
         g2 = GeoGrid(t, np.array([-40.0 + 7.0 * k for k in range(N2)]),
                      np.array([100.0 + 3.0 * k for k in range(N2)]), silence_level=3)
-        p = rng.choice([0.3, 0.5, 0.8])
-        bits = [rng.random() < p for _ in range(n * (n - 1) // 2)]
-        A = graph_from_bits(n, bits, False)
-        S = np.where(np.array(A) == 1, 0.875, 0.125)   # exact in float32 as well
-        np.fill_diagonal(S, 1.0)
+        p = rng.choice([0.15, 0.3, 0.5, 0.8])
+        nb = n * (n - 1) if directed else n * (n - 1) // 2
+        bits = [rng.random() < p for _ in range(nb)]
+        A = graph_from_bits(n, bits, directed)
+        lay = lambda a: 0 if a < N1 else 1   # noqa
+        if kind == "empty":
+            A = [[0] * n for _ in range(n)]
+        elif kind == "complete":
+            A = [[int(a != b) for b in range(n)] for a in range(n)]
+        elif kind in ("no-cross-links", "one-cross-link"):
+            A = [[A[a][b] if lay(a) == lay(b) else 0 for b in range(n)] for a in range(n)]
+            if kind == "one-cross-link":
+                a, b = rng.randrange(N1), rng.randrange(N1, n)
+                A[a][b] = A[b][a] = 1
+        elif kind == "layer-2-isolated":
+            A = [[A[a][b] if (lay(a) == 0 and lay(b) == 0) else 0 for b in range(n)]
+                 for a in range(n)]
+        ctx.count("ccn:kind:" + kind + ("-directed" if directed else ""))
+        ctx.count(f"ccn:layers:{'N1<N2' if N1 < N2 else 'N1=N2' if N1 == N2 else 'N1>N2'}")
+        # dyadic similarities (exact in float32), away from the threshold 1/2
+        S = np.zeros((n, n))
+        for a in range(n):
+            for b in range(n):
+                if a == b:
+                    S[a, b] = 1.0
+                elif directed or b < a:
+                    S[a, b] = rng.choice([0.625, 0.75, 0.875] if A[a][b]
+                                         else [0.125, 0.25, 0.375])
+                    if not directed:
+                        S[b, a] = S[a, b]
         try:
-            ccn = CoupledClimateNetwork(g1, g2, S, threshold=0.5, silence_level=3)
+            ccn = CoupledClimateNetwork(g1, g2, S, threshold=0.5, directed=directed,
+                                        silence_level=3)
         except Exception as e:  # noqa
             ctx.count("ccn:constructor-raises:" + type(e).__name__)
             continue
@@ -1933,30 +2278,32 @@ def ccn_checks(ctx, quick):
             ctx.count("ccn:adjacency-differs-from-thresholded-similarity")
             A = Aimpl
         c = Case()
-        c.n, c.directed, c.A, c.tag = n, False, A, "ccn"
+        c.n, c.directed, c.A, c.tag = n, directed, A, "ccn"
         c.w = [Fr(1)] * n
         c.la = [[Fr(0)] * n for _ in range(n)]
         c.Du = floyd(n, [[Fr(1) if A[a][b] else None for b in range(n)] for a in range(n)])
         c.Dw, c.net = c.Du, ccn
-        o = Oracle(n, False, A, c.w, c.la, c.Du, c.Du)
         L1, L2 = list(range(N1)), list(range(N1, n))
-        ctx.case(("ccn", A, N1), any(any(r) for r in A),
-                 {"class": "CoupledClimateNetwork", "adjacency": A, "N_1": N1})
+        ctx.case(("ccn", A, N1, directed), any(any(r) for r in A),
+                 {"class": "CoupledClimateNetwork", "adjacency": A, "N_1": N1,
+                  "directed": directed})
         ctx.count("ccn:networks")
 
         # a dyadic link attribute for the wrappers' non-default `link_attribute` argument
         la = [[Fr(0)] * n for _ in range(n)]
         for a in range(n):
-            for b in range(a):
-                if A[a][b]:
-                    la[a][b] = la[b][a] = Fr(rng.randrange(1, 13), 4)
+            for b in range(n):
+                if A[a][b] and (directed or b < a):
+                    la[a][b] = Fr(rng.randrange(1, 13), 4)
+                    if not directed:
+                        la[b][a] = la[a][b]
         c.la = la
         has_links = any(any(r) for r in A)
         if has_links:
             ccn.set_link_attribute("la", np.array([[float(x) for x in r] for r in la]))
             c.Dw = floyd(n, [[la[a][b] if A[a][b] else None for b in range(n)]
                              for a in range(n)])
-        o = Oracle(n, False, A, c.w, c.la, c.Du, c.Dw)
+        o = Oracle(n, directed, A, c.w, c.la, c.Du, c.Dw)
         held1, held2 = list(ccn.nodes_1), list(ccn.nodes_2)
 
         def both(name, *extra):
@@ -2050,6 +2397,11 @@ def ccn_checks(ctx, quick):
                 ("internal_closeness(la)", lambda: ccn.internal_closeness(link_attribute="la"),
                  both("internal_closeness", D)),
             ]
+        if directed:
+            # triangle-based measures have no documented directed definition; the betweenness
+            # delegates raise AssertionError there (model-implementation correspondence below)
+            table = [t_ for t_ in table if not any(k in t_[0] for k in (
+                "clustering", "transitivity", "betweenness"))]
         rng.shuffle(table)
         for nm, f, exp in table:
             ctx.count("ccn:wrapper-calls")
@@ -2090,3 +2442,121 @@ def ccn_checks(ctx, quick):
                      "nodes_1 / nodes_2 / adjacency held by the CoupledClimateNetwork changed "
                      "during a history of wrapper calls",
                      {"adjacency": A, "N_1": N1, "N_2": N2})
+        # round 5, implementation only (theorems ccn_degree, ccn_n_links,
+        # ccn_cross_degree_handshake): Network.degree() = internal_degree() + cross_degree()
+        # layer by layer; n_links = links within the layers + links between them
+        def quiet(f):
+            with contextlib.redirect_stdout(io.StringIO()):
+                return call(f)
+        ctx.count("relation:ccn-layer-decomposition")
+        try:
+            idg, cdg = ccn.internal_degree(), ccn.cross_degree()
+            whole = [int(x) for x in np.asarray(ccn.degree()).tolist()]
+            parts = [int(x) + int(y) for x, y in zip(idg[0], cdg[0])] + \
+                [int(x) + int(y) for x, y in zip(idg[1], cdg[1])]
+            okd = whole == parts
+            if directed:
+                okl = True
+            else:
+                nil = ccn.number_internal_links()
+                ncl = int(ccn.number_cross_layer_links())
+                okl = int(ccn.n_links) == int(nil[0]) + int(nil[1]) + ncl and \
+                    int(np.sum(cdg[0])) == ncl == int(np.sum(cdg[1]))
+        except Exception as e:  # noqa
+            okd, okl, whole, parts = False, False, "raise:" + type(e).__name__, None
+        if not (okd and okl):
+            ctx.fail({"class": "CoupledClimateNetwork", "method": "degree / n_links",
+                      "relation": "layer-decomposition"},
+                     "Network.degree() / n_links of a CoupledClimateNetwork is not the sum of the "
+                     "internal and cross quantities of its two layers",
+                     {"adjacency": A, "N_1": N1, "N_2": N2, "directed": directed,
+                      "degree": str(whole), "internal+cross": str(parts)})
+        # round 5: the same object once more, now against the Lean model of the wrappers
+        G = np.asarray(ccn.distance(), dtype=float)
+        Sfull32 = np.asarray(ccn.similarity_measure(), dtype=float)
+        req = " ".join(["ccn", "1" if directed else "0", str(N1), str(n), enc_mat(A),
+                        enc_mat(c.Du), enc_mat(c.Dw),
+                        enc_mat([[Fr(float(x)) for x in r] for r in G.tolist()]),
+                        enc_mat([[Fr(float(x)) for x in r] for r in Sfull32.tolist()])])
+        todo.append((req, ccn_impl_results(ccn, has_links),
+                     f"N_1={N1} N_2={N2} directed={directed} A={enc_mat(A)}"))
+    # round 5: objects of the subclass CoupledTsonisClimateNetwork (constructed from two ClimateData
+    # sets through CoupledClimateNetwork.__init__; threshold and link_density paths, non_local):
+    # the inherited wrappers against the Lean model on *their* adjacency, and the layer
+    # decomposition on the implementation
+    from pyunicorn.climate import CoupledTsonisClimateNetwork, ClimateData
+    for _ in range(2 if quick else 8):
+        N1, N2 = rng.randrange(2, 6), rng.randrange(2, 6)
+        n = N1 + N2
+        T = 24
+        tt = np.arange(float(T))
+        g1 = GeoGrid(tt, np.array([-40.0 + 9.0 * k for k in range(N1)]),
+                     np.array([10.0 + 7.0 * k for k in range(N1)]), silence_level=3)
+        g2 = GeoGrid(tt, np.array([5.0 + 11.0 * k for k in range(N2)]),
+                     np.array([120.0 + 5.0 * k for k in range(N2)]), silence_level=3)
+        nprng = np.random.RandomState(rng.randrange(2 ** 31))
+        o1, o2 = nprng.randn(T, N1), nprng.randn(T, N2)
+        for k in range(min(N1, N2)):
+            if rng.random() < 0.6:
+                o2[:, k] += o1[:, k] * rng.choice([1.0, 2.0])
+        kw = {"threshold": rng.choice([0.2, 0.35, 0.5])} if rng.random() < 0.6 else \
+            {"link_density": rng.choice([0.2, 0.4, 0.6])}
+        try:
+            with contextlib.redirect_stdout(io.StringIO()):
+                ccn = CoupledTsonisClimateNetwork(
+                    ClimateData(observable=o1, grid=g1, time_cycle=12, silence_level=3),
+                    ClimateData(observable=o2, grid=g2, time_cycle=12, silence_level=3),
+                    non_local=rng.random() < 0.3, silence_level=3, **kw)
+        except Exception as e:  # noqa
+            ctx.count("ccn:tsonis-constructor-raises:" + type(e).__name__)
+            continue
+        ccn.silence_level = 3
+        ctx.count("ccn:CoupledTsonisClimateNetwork:" + next(iter(kw)))
+        A = [[int(x) for x in r] for r in np.asarray(ccn.adjacency).tolist()]
+        has_links = any(any(r) for r in A)
+        la = [[Fr(0)] * n for _ in range(n)]
+        for a in range(n):
+            for b in range(a):
+                if A[a][b]:
+                    la[a][b] = la[b][a] = Fr(rng.randrange(1, 13), 4)
+        Du = floyd(n, [[Fr(1) if A[a][b] else None for b in range(n)] for a in range(n)])
+        Dw = Du
+        if has_links:
+            ccn.set_link_attribute("la", np.array([[float(x) for x in r] for r in la]))
+            Dw = floyd(n, [[la[a][b] if A[a][b] else None for b in range(n)] for a in range(n)])
+        ctx.case(("ccn-tsonis", A, N1), has_links,
+                 {"class": "CoupledTsonisClimateNetwork", "adjacency": A, "N_1": N1})
+        bad = None
+        try:
+            if int(ccn.N_1) != N1 or int(ccn.N_2) != N2 or list(ccn.nodes_1) != list(range(N1)) \
+                    or list(ccn.nodes_2) != list(range(N1, n)):
+                bad = f"N_1={ccn.N_1} N_2={ccn.N_2} nodes_1={ccn.nodes_1} nodes_2={ccn.nodes_2}"
+            else:
+                with contextlib.redirect_stdout(io.StringIO()):
+                    idg, cdg = ccn.internal_degree(), ccn.cross_degree()
+                    nil, ncl = ccn.number_internal_links(), int(ccn.number_cross_layer_links())
+                whole = [int(x) for x in np.asarray(ccn.degree()).tolist()]
+                parts = [int(x) + int(y) for x, y in zip(idg[0], cdg[0])] + \
+                    [int(x) + int(y) for x, y in zip(idg[1], cdg[1])]
+                if whole != parts or int(ccn.n_links) != int(nil[0]) + int(nil[1]) + ncl:
+                    bad = f"degree={whole} internal+cross={parts} n_links={ccn.n_links} " \
+                          f"internal={nil} cross={ncl}"
+        except Exception as e:  # noqa
+            bad = "raise:" + type(e).__name__
+        ctx.count("relation:ccn-layer-decomposition")
+        if bad:
+            ctx.fail({"class": "CoupledTsonisClimateNetwork", "method": "degree / n_links / layers",
+                      "relation": "layer-decomposition"},
+                     "layers / degree() / n_links of a CoupledTsonisClimateNetwork are not the "
+                     "bipartition (range(N_1), range(N_1, N)) resp. the sums over its layers: "
+                     + bad, {"adjacency": A, "N_1": N1, "N_2": N2, "arguments": str(kw)})
+        with contextlib.redirect_stdout(io.StringIO()):
+            G = np.asarray(ccn.distance(), dtype=float)
+            S32 = np.asarray(ccn.similarity_measure(), dtype=float)
+        req = " ".join(["ccn", "0", str(N1), str(n), enc_mat(A), enc_mat(Du), enc_mat(Dw),
+                        enc_mat([[Fr(float(x)) for x in r] for r in G.tolist()]),
+                        enc_mat([[Fr(float(x)) for x in r] for r in S32.tolist()])])
+        todo.append((req, ccn_impl_results(ccn, has_links),
+                     f"CoupledTsonisClimateNetwork N_1={N1} N_2={N2} directed=False "
+                     f"A={enc_mat(A)}"))
+    ccn_correspondence(ctx, todo)
